@@ -11,6 +11,7 @@
   concrete `evalBool ρ`; a truth assignment to the clauses is `ev` restricted to them.
 -/
 import Cel.Lemmas.Xlate
+import Cel.Lemmas.XlateText
 namespace Cel.Props.C18
 open Cel Cel.Grammar Cel.Xlate
 
@@ -22,6 +23,63 @@ theorem top_level_logic_exact (e : PExpr) : topLevelLogic (render e) = tops e :=
 /-- a clause left unparenthesised by `operands` binds at least as tightly as a relation -/
 theorem ungrouped_is_tight (e : PExpr) (h : topLevelLogic (render e) = false) : 3 ≤ level e :=
   tops_false_level e (by rw [← topLevelLogic_render]; exact h)
+
+/-! ### the scanner at the level it works on: characters
+
+`top_level_logic` scans TEXT. `scanText` (Cel.Model.XlateText) is that loop on characters: it skips
+single- and triple-quoted literals itself (a backslash escapes the next character), counts brackets,
+and stops at `?`, `&&`, `||` at depth 0. The theorems below say that on the spelled-out token string
+it computes what the token-level scanner computes, so `top_level_logic_exact` holds for the text. -/
+
+/-- on the blank-separated spelling of ANY token string whose tokens have the text their terminal can
+match (`lexOK`: fixed text for brackets and `? && ||`; a closed string literal for the literal kinds;
+no quotes, brackets, `? & |` elsewhere), at any starting depth, the character scanner agrees with the
+token scanner. Induction over all token strings; string literals by induction over their body. -/
+theorem scanner_text_eq_tokens (ts : List Tok) (d : Int) (h : ∀ t ∈ ts, lexOK t = true) :
+    scanText d (textOf ts) = scanTop d ts :=
+  scanText_textOf ts d h
+
+/-- "whatever CEL text the individual clauses translate to": for every CEL expression, the scanner run on
+the clause's TEXT answers exactly "has `&&`, `||` or `?:` outside brackets (and string literals)" -/
+theorem top_level_logic_text_exact (e : PExpr) (h : ∀ t ∈ render e, lexOK t = true) :
+    topLevelLogicText (textOf (render e)) = tops e := by
+  unfold topLevelLogicText
+  rw [scanText_textOf _ 0 h]
+  exact topLevelLogic_render e
+
+/-- blanks outside literals do not matter to the scanner (the real text has them where the rewriters put them) -/
+theorem scanner_skips_blanks (d : Int) (n : Nat) (s : List Char) :
+    scanText d (List.replicate n ' ' ++ s) = scanText d s :=
+  scanText_plains d _ s (by simp [plainChar, isQuote, isOpenC, isCloseC])
+
+/-- a string literal is skipped whole, whatever it contains: a literal's text `q body q` whose first unescaped
+`q` is its end (`litBody`) leaves the scanner at the text after it, at the same depth -/
+theorem scanner_skips_literal (d : Int) (cs rest : List Char) (h : strTokOK cs = true)
+    (hs : rest = [] ∨ ∃ r, rest = ' ' :: r) :
+    scanText d (cs ++ rest) = scanText d rest :=
+  scanText_strTok d rest hs cs h
+
+/-- every anonymous token (operators, brackets, `in`, `.`, `,`, `:`) has an admissible text -/
+theorem anon_tokens_lexOK (k : TK) (h : k.named = false) : lexOK (.a k) = true := by
+  cases k <;> first | decide | (simp [TK.named] at h)
+
+section text_witnesses
+/-- hypotheses are satisfiable: `"a\"&&"`, `'''it's (?'''`, `r"\d||"`, `b'x'`, an identifier, a number -/
+example : lexOK ⟨.STRING_LIT, "\"a\\\"&&\""⟩ = true ∧ lexOK ⟨.MLSTRING_LIT, "'''it's (?'''"⟩ = true ∧
+    lexOK ⟨.STRING_LIT, "r\"\\d||\""⟩ = true ∧ lexOK ⟨.BYTES_LIT, "b'x'"⟩ = true ∧
+    lexOK ⟨.IDENT, "resource"⟩ = true ∧ lexOK ⟨.FLOAT_LIT, "1.5e-3"⟩ = true := by decide
+/-- … and exclude what no terminal matches: an "identifier" `a&&b`, an unclosed literal, a literal with an
+unescaped quote inside -/
+example : lexOK ⟨.IDENT, "a&&b"⟩ = false ∧ lexOK ⟨.STRING_LIT, "\"abc"⟩ = false ∧
+    lexOK ⟨.STRING_LIT, "\"a\"b\""⟩ = false := by decide
+/-- the text `"(" == ")(" || x` has `||` at depth 0 although the brackets inside the literals do not balance;
+`[c, '&& || ? :' == ')'].exists(x, x)` has none -/
+example : topLevelLogicText "\"(\" == \")(\" || x".toList = true ∧
+    topLevelLogicText "[c, '&& || ? :' == ')'].exists(x, x)".toList = false ∧
+    topLevelLogicText "'it\\'s' == '' ? a : b".toList = true ∧
+    topLevelLogicText "\"\"\"a \" && \"\"\" == s".toList = false := by
+  simp [topLevelLogicText, scanText, skipLit, quoteOf, isQuote, isOpenC, isCloseC, List.isPrefixOf]
+end text_witnesses
 
 /-- **The emitted text parses** (sentence 1): for every filter tree whose connectives have at least
 one child, over arbitrary well-formed clauses, at any nesting level, the emitted token string is a
